@@ -237,7 +237,9 @@ theorem IW_step (cfg : Cfg) (s : St) (op : Op) (h : IW s) : IW (step cfg s op).1
     · exact h
   | removeIdle c =>
     simp only [step]; split; exact h
-    exact IW_removeIdleLocked s c h
+    split
+    · exact IW_removeIdleLocked s c h
+    · exact h
   | idleTimeout c =>
     simp only [step]; split; exact h
     exact IW_of_frame (s := (removeIdleLocked s c).1) (by simp) (by simp) (IW_removeIdleLocked s c h)
@@ -440,7 +442,9 @@ theorem IL_step (cfg : Cfg) (s : St) (op : Op) (h : IL cfg s) : IL cfg (step cfg
     · exact h
   | removeIdle c =>
     simp only [step]; split; exact h
-    exact IL_removeIdleLocked cfg s c h
+    split
+    · exact IL_removeIdleLocked cfg s c h
+    · exact h
   | idleTimeout c =>
     simp only [step]; split; exact h
     exact IL_of_frame (s := (removeIdleLocked s c).1) (by simp) (IL_removeIdleLocked cfg s c h)
@@ -603,7 +607,9 @@ theorem CL_step (cfg : Cfg) (s : St) (op : Op) (h : CL cfg s) : CL cfg (step cfg
     · exact h
   | removeIdle c =>
     simp only [step]; split; exact h
-    exact CL_of_le (CphLe.of_eq (by simp)) h
+    split
+    · exact CL_of_le (CphLe.of_eq (by simp)) h
+    · exact h
   | idleTimeout c =>
     simp only [step]; split; exact h
     exact CL_of_le (CphLe.trans (closeConn_cphLe _ _ _) (CphLe.of_eq (by simp))) h
